@@ -725,6 +725,16 @@ func (fc *funcContext) translateAssign(lhs, rhs ast.Expr, define bool) string {
 		return fmt.Sprintf("%s = %s;", fc.translateExpr(lhs), rhsExpr) // skip $copy
 	}
 
+	if l, ok := lhs.(*ast.SelectorExpr); ok {
+		if sel, ok := fc.selectionOf(l); ok {
+			// A js-tagged field lives in the wrapped JavaScript object: there is no Go
+			// array/struct to copy into, the value is externalized and assigned.
+			if fields, jsTag := fc.translateSelection(sel, l.Pos()); jsTag != "" {
+				return fmt.Sprintf("%s.%s%s = %s;", fc.translateExpr(l.X), strings.Join(fields, "."), formatJSStructTagVal(jsTag), fc.externalize(rhsExpr.String(), sel.Type()))
+			}
+		}
+	}
+
 	isReflectValue := false
 	if named, ok := lhsType.(*types.Named); ok && named.Obj().Pkg() != nil && named.Obj().Pkg().Path() == "reflect" && named.Obj().Name() == "Value" {
 		isReflectValue = true
